@@ -3,6 +3,7 @@ package main
 import (
 	"fmt"
 	"go/ast"
+	"go/token"
 	"os"
 	"strings"
 
@@ -173,6 +174,61 @@ func runCanariesImpl(dir string) string {
 		at := w.exprAtoms(fi, fi.Decl.Body.List[0].(*ast.ReturnStmt).Results[0])
 		if len(at.Calls) != 0 {
 			fails = append(fails, fmt.Sprintf("inline-atoms: expected no call atoms through the new function, got %v", keys(at.Calls)))
+		}
+	}
+	// context: a new helper used twice is analysed per use
+	if fi := need("CtxTwoUses"); fi != nil {
+		for _, ex := range exitsOf(fi.SSA) {
+			if ex.Ret == nil || len(ex.Ret.Results) != 2 {
+				continue
+			}
+			a, b := sliceOf(ex.Ret.Results[0]), sliceOf(ex.Ret.Results[1])
+			if !a.hasFieldNamed("A") || a.hasFieldNamed("B") || !b.hasFieldNamed("B") || b.hasFieldNamed("A") {
+				fails = append(fails, fmt.Sprintf("context: the two uses of inlUpper are not kept apart (first: %v, second: %v)", a.fieldNames(), b.fieldNames()))
+			}
+		}
+	}
+	// a skip written as `if !c { act }; continue`
+	if fi := need("EachElseSkip"); fi != nil {
+		found := false
+		ast.Inspect(fi.Decl, func(n ast.Node) bool {
+			if rs, ok := n.(*ast.RangeStmt); ok {
+				if sk := contSkipOf(fi.Pkg.TypesInfo, rs.Body, nil); sk != nil && len(sk.Added) == 1 {
+					if ue, ok := sk.Deciding.(*ast.UnaryExpr); ok && ue.Op == token.NOT {
+						found = true
+					}
+				}
+			}
+			return true
+		})
+		if !found {
+			fails = append(fails, "skip-shape: `if !c { act }; continue` is not read as a skip under c")
+		}
+	}
+	// length facts
+	for _, t := range []struct {
+		name string
+		safe bool
+	}{{"LenSwitchGood", true}, {"LenSwitchBad", false}} {
+		if fi := need(t.name); fi != nil {
+			n := 0
+			allInstrsLocal(fi.SSA, false, func(_ *ssa.Function, b *ssa.BasicBlock, _ int, ins ssa.Instruction) {
+				ia, ok := ins.(*ssa.IndexAddr)
+				if !ok {
+					return
+				}
+				k, isK := ia.Index.(*ssa.Const)
+				if !isK || k.Int64() != 1 {
+					return
+				}
+				n++
+				if got := indexBounded(ia.X, 1, b); got != t.safe {
+					fails = append(fails, fmt.Sprintf("len-facts/%s: index [1] judged safe=%v, want %v", t.name, got, t.safe))
+				}
+			})
+			if n != 1 {
+				fails = append(fails, fmt.Sprintf("len-facts/%s: expected one [1] index, found %d", t.name, n))
+			}
 		}
 	}
 	if fi := need("inlCollect"); fi != nil {
